@@ -9,7 +9,7 @@ Theorem C18_list_sorted :
          Sorted.StronglySorted (fun x y : str * str => str_ltb (fst y) (fst x) = false)
            (complete cfg root args) /\
          Sorted.Sorted (fun x y : str * str => str_ltb (fst y) (fst x) = false) (complete cfg root args).
-Proof. exact C18_sorted. Qed.
+Proof. exact @C18_sorted. Qed.
 Print Assumptions C18_list_sorted.
 
 (* a partial long name yields exactly the non-hidden options of the context with that prefix *)
@@ -19,12 +19,12 @@ Theorem C18_long_names_exact :
          (exists (n : list N) (oc : octx),
             it = (s2l "--" ++ n, o_desc (oc_opt oc)) /\
             find_last (lk_long lk) n = Some oc /\ has_prefix n m = true /\ o_hidden (oc_opt oc) = false).
-Proof. exact C18_option_names_exact. Qed.
+Proof. exact @C18_option_names_exact. Qed.
 Print Assumptions C18_long_names_exact.
 
 Theorem C18_long_names_once :
   forall (lk : lookup) (prefix m : str), NoDup (map fst (complete_option_names lk prefix m false)).
-Proof. exact C18_option_names_nodup. Qed.
+Proof. exact @C18_option_names_nodup. Qed.
 Print Assumptions C18_long_names_once.
 
 Theorem C18_bare_dash :
@@ -42,7 +42,7 @@ Theorem C18_bare_dash :
                 (exists (n' : str) (oc' : octx),
                    find_last (lk_long lk) n' = Some oc' /\
                    o_hidden (oc_opt oc') = false /\ n = encode_rune (o_short (oc_opt oc')))))).
-Proof. exact C18_short_names. Qed.
+Proof. exact @C18_short_names. Qed.
 Print Assumptions C18_bare_dash.
 
 Theorem C18_commands :
@@ -53,7 +53,7 @@ Theorem C18_commands :
             g_hidden (grp_info (cmd_group sc)) = false /\
             has_prefix (c_name (cmd_info sc)) m = true /\
             it = (c_name (cmd_info sc), g_short (grp_info (cmd_group sc)))).
-Proof. exact C18_commands_exact. Qed.
+Proof. exact @C18_commands_exact. Qed.
 Print Assumptions C18_commands.
 
 Theorem C18_values_of_completer :
@@ -64,7 +64,7 @@ Theorem C18_values_of_completer :
          (forall it : str * str,
           In it (comp_complete m) <->
           In (fst it) comp_words /\ has_prefix (fst it) m = true /\ snd it = s2l "desc " ++ fst it).
-Proof. exact C18_values. Qed.
+Proof. exact @C18_values. Qed.
 Print Assumptions C18_values_of_completer.
 
 (* every offered long option is recognised by the parser's lookup in the same context *)
@@ -81,7 +81,7 @@ Theorem C18_offered_is_accepted :
            o_hidden (oc_opt oc) = false /\
            parse_long cfg orc help_text n argument s r =
            parse_option cfg orc help_text oc (negb (o_optional (oc_opt oc))) argument s r.
-Proof. exact C18_offered_long_parse_long. Qed.
+Proof. exact @C18_offered_long_parse_long. Qed.
 Print Assumptions C18_offered_is_accepted.
 
 Theorem C18_offered_dash_accepted :
@@ -89,6 +89,126 @@ Theorem C18_offered_dash_accepted :
          In it (complete_option_names lk prefix [] true) ->
          (exists n : list N, fst it = s2l "--" ++ n /\ find_last (lk_long lk) n <> None) \/
          (exists n : list N, fst it = 45 :: n /\ find_last (lk_short lk) n <> None).
-Proof. exact C18_offered_dash_is_accepted. Qed.
+Proof. exact @C18_offered_dash_is_accepted. Qed.
 Print Assumptions C18_offered_dash_accepted.
+
+(* ---- added by bin/mkprops (batch 2) ---- *)
+From GoFlags Require Import Base.Str Base.Utf8 Golib.Strings Golib.Strconv Model.Types Model.Tag Model.Scan Model.Lookup Model.Convert Model.State Model.Closest Model.Help Model.Parse Model.Ini Model.Complete.
+From GoFlags Require Import Proofs.ContextSpec.
+
+(* after a valid prefix of command words the completion walk and the parser are in the same context: same command path, same lookup tables, same pending positionals *)
+Theorem C18_same_context_after_command_words :
+  forall (cfg : pconfig) (orc : oracles) (root : command) (help_text : rt -> str) 
+           (ws : list str) (idx : list nat) (lastw : str) (r : rt) (fc fp : nat),
+         cmd_words cfg root [] ws idx ->
+         (Datatypes.length ws <= fc)%nat ->
+         (Datatypes.length ws < fp)%nat ->
+         exists (sp : pst) (r' : rt),
+           comp_walk cfg root fc (ws ++ [lastw]) (cs_fill cfg root []) None =
+           (cs_fill cfg root idx, None, [lastw]) /\
+           run_loop cfg orc root help_text fp (initial_pst cfg root ws) r = Ok (sp, r') /\
+           ps_cmd sp = idx /\
+           ps_lk sp = make_lookup (pc_nsdelim cfg) root idx /\
+           ps_pos sp = pos_at root idx /\
+           ps_ret sp = [] /\
+           ps_err sp = None /\
+           ps_args sp = [] /\
+           rt_vals r' = rt_vals r /\
+           rt_fl r' = rt_fl r /\
+           rt_logs r' = rt_logs r /\
+           rt_active r' = rev (entries [] idx) ++ rt_active r /\
+           cs_cmd (cs_fill cfg root idx) = ps_cmd sp /\
+           cs_lk (cs_fill cfg root idx) = ps_lk sp /\ cs_pos (cs_fill cfg root idx) = ps_pos sp.
+Proof. exact @C18_context_commands_only. Qed.
+Print Assumptions C18_same_context_after_command_words.
+
+(* the same when accepted --flag and --name=V tokens are interleaved with the command words *)
+Theorem C18_same_context_after_words_and_flags :
+  forall (cfg : pconfig) (orc : oracles) (root : command) (help_text : rt -> str) 
+           (ws : list str) (path' : list nat) (lastw : str) (r r' : rt) (fc fp : nat),
+         ctx_run cfg orc root help_text [] r ws path' r' ->
+         (Datatypes.length ws <= fc)%nat ->
+         (Datatypes.length ws < fp)%nat ->
+         exists sp : pst,
+           comp_walk cfg root fc (ws ++ [lastw]) (cs_fill cfg root []) None =
+           (cs_fill cfg root path', None, [lastw]) /\
+           run_loop cfg orc root help_text fp (initial_pst cfg root ws) r = Ok (sp, r') /\
+           ps_cmd sp = path' /\
+           ps_lk sp = make_lookup (pc_nsdelim cfg) root path' /\
+           ps_pos sp = pos_at root path' /\
+           ps_ret sp = [] /\
+           ps_err sp = None /\
+           ps_args sp = [] /\
+           cs_cmd (cs_fill cfg root path') = ps_cmd sp /\
+           cs_lk (cs_fill cfg root path') = ps_lk sp /\ cs_pos (cs_fill cfg root path') = ps_pos sp.
+Proof. exact @C18_context_with_flags. Qed.
+Print Assumptions C18_same_context_after_words_and_flags.
+
+Theorem C18_same_context_real_fuel :
+  forall (cfg : pconfig) (orc : oracles) (root : command) (help_text : rt -> str) 
+           (ws : list str) (path' : list nat) (lastw : str) (r r' : rt),
+         ctx_run cfg orc root help_text [] r ws path' r' ->
+         exists sp : pst,
+           comp_walk cfg root (S (Datatypes.length (ws ++ [lastw]))) (ws ++ [lastw]) (cs_fill cfg root []) None =
+           (cs_fill cfg root path', None, [lastw]) /\
+           run_loop cfg orc root help_text (S (Datatypes.length ws)) (initial_pst cfg root ws) r = Ok (sp, r') /\
+           cs_cmd (cs_fill cfg root path') = ps_cmd sp /\
+           cs_lk (cs_fill cfg root path') = ps_lk sp /\
+           cs_pos (cs_fill cfg root path') = ps_pos sp /\ ps_ret sp = [] /\ ps_err sp = None.
+Proof. exact @C18_context_with_flags_api_fuel. Qed.
+Print Assumptions C18_same_context_real_fuel.
+
+Theorem C18_accepted_option_tokens_keep_context :
+  forall (cfg : pconfig) (orc : oracles) (root : command) (help_text : rt -> str) 
+           (sc : cst) (opt : option octx) (sp : pst) (r r1 : rt) (tok b : str) (rest : list str) 
+           (n : str) (oc : octx) (f : nat),
+         ps_lk sp = cs_lk sc ->
+         ps_args sp = tok :: b :: rest ->
+         argument_is_option tok = true ->
+         ~ In 61 n ->
+         find_last (lk_long (cs_lk sc)) n = Some oc ->
+         tok = s2l "--" ++ n /\
+         can_argument (oc_opt oc) = false /\ opt_set orc (pc_nsdelim cfg) help_text oc None r = Ok (r1, None) \/
+         (exists (V : list N) (v' : str),
+            tok = s2l "--" ++ n ++ [61] ++ V /\
+            can_argument (oc_opt oc) = true /\
+            arg_text (oc_opt oc) V = Some v' /\
+            opt_set orc (pc_nsdelim cfg) help_text oc (Some v') r = Ok (r1, None)) ->
+         comp_walk cfg root (S f) (tok :: b :: rest) sc opt = comp_walk cfg root f (b :: rest) sc opt /\
+         (exists sp' : pst,
+            step cfg orc root help_text sp r = Ok (Continue sp' r1) /\
+            ps_args sp' = b :: rest /\
+            ps_cmd sp' = ps_cmd sp /\
+            ps_lk sp' = ps_lk sp /\ ps_pos sp' = ps_pos sp /\ ps_ret sp' = ps_ret sp /\ ps_err sp' = ps_err sp).
+Proof. exact @C18_option_tokens_keep_context. Qed.
+Print Assumptions C18_accepted_option_tokens_keep_context.
+
+(* `--name V`: the walk pops V exactly when the parser consumes it, and a trailing V is the value being completed *)
+Theorem C18_separate_argument_is_skipped :
+  forall (cfg : pconfig) (orc : oracles) (root : command) (help_text : rt -> str) 
+           (f : nat) (n v : str) (sc : cst) (opt : option octx) (oc : octx),
+         argument_is_option (s2l "--" ++ n) = true ->
+         ~ In 61 n ->
+         find_last (lk_long (cs_lk sc)) n = Some oc ->
+         can_argument (oc_opt oc) = true ->
+         o_optional (oc_opt oc) = false ->
+         (forall (x : str) (rest' : list str),
+          comp_walk cfg root (S f) ((s2l "--" ++ n) :: v :: x :: rest') sc opt =
+          comp_walk cfg root f (x :: rest') sc opt) /\
+         comp_walk cfg root (S f) [s2l "--" ++ n; v] sc opt = (sc, Some oc, [v]) /\
+         (forall (sp : pst) (r r1 : rt) (rest' : list str) (v' : str),
+          ps_lk sp = cs_lk sc ->
+          ps_args sp = (s2l "--" ++ n) :: v :: rest' ->
+          is_valid_value (oc_opt oc) v = true ->
+          po_passdd (pc_opts cfg) && str_eqb v (s2l "--") = false ->
+          arg_text (oc_opt oc) v = Some v' ->
+          opt_set orc (pc_nsdelim cfg) help_text oc (Some v') r = Ok (r1, None) ->
+          exists sp' : pst,
+            step cfg orc root help_text sp r = Ok (Continue sp' r1) /\
+            ps_args sp' = rest' /\
+            ps_arg sp' = v /\
+            ps_cmd sp' = ps_cmd sp /\
+            ps_lk sp' = ps_lk sp /\ ps_pos sp' = ps_pos sp /\ ps_ret sp' = ps_ret sp /\ ps_err sp' = ps_err sp).
+Proof. exact @C18_separate_argument_skipped. Qed.
+Print Assumptions C18_separate_argument_is_skipped.
 
